@@ -159,11 +159,12 @@ def execute(case):
     # C03.c every pooled CVR lists every contest of its pool
     if world["audit_type"] == W.ONEAUDIT:
         union = {}
+        audited = set(world["contests"])
         for c in cvrs:
             if c.pool:
-                union.setdefault(c.tally_pool, set()).update(c.votes.keys())
+                union.setdefault(c.tally_pool, set()).update(k for k in c.votes.keys() if k in audited or not case.get("pools_restricted"))
         for c in cvrs:
-            if c.pool and set(c.votes.keys()) != union[c.tally_pool]:
+            if c.pool and not union[c.tally_pool] <= set(c.votes.keys()):
                 out.violate("C03.c", "pool-contests", f"pooled CVR {c.id} lists {sorted(c.votes)} but its pool "
                                                       f"{c.tally_pool} has {sorted(union[c.tally_pool])}")
                 break
@@ -246,6 +247,18 @@ def execute(case):
                 out.violate("C03.a", f"{world['audit_type']}/{kind}/style={style}",
                             f"{cid}/{key}: mean(B)-1/2 = {lhs!r} but (2 mean(A)-1)/(2(2u-v)) = {rhs!r} "
                             f"(u={u}, v={v}, {len(idx)} cards)")
+            # the same population handed over as record lists (the route a real audit takes to its test's data)
+            if not case.get("big_pool"):
+                try:
+                    with W.quiet():
+                        d_, _u = asn.mvrs_to_data(mvrs, cvrs, use_all=True)
+                    d_ = [float(x) for x in d_]
+                    if len(d_) != len(B) or any(not close(a_, b_) for a_, b_ in zip(d_, B)):
+                        out.violate("C03.a", f"{world['audit_type']}/{kind}/style={style}/via-record-lists",
+                                    f"{cid}/{key}: the whole population handed to mvrs_to_data gives {len(d_)} values "
+                                    f"{d_[:5]}..., scoring the {len(B)} (CVR, manual record) pairs one by one gives {[float(b_) for b_ in B[:5]]}...")
+                except Exception as e:
+                    out.raised("mvrs_to_data(whole population)", e)
             if "/cvrs-as-mvrs" in results:
                 B2, A2 = results["/cvrs-as-mvrs"]
                 lhs2 = float(np.mean(B2)) - 0.5
